@@ -15,6 +15,33 @@ Reject reasons (the classes named in property C16): "no-scheme", "no-host", "fra
 "foreign-scheme" (not one of the CoAP schemes: the caller decides what that means).
 NotAUri reasons: "bad-pct" (a '%' not followed by two hex digits), "char:<component>"
 (a character the component's production does not allow), "scheme", "host", "path".
+
+Three readings that callers rely on, with their source:
+
+* Characters that are not URI characters. RFC 3986 section 2 builds every URI from unreserved, reserved and
+  pct-encoded characters only. The C0 controls U+0000-U+001F (TAB, LF, CR among them), SPACE and DEL are in none of
+  these sets (RFC 3986 2.4 / Appendix A; RFC 2396 2.4.3 listed them as "excluded"), so a text that contains one of
+  them *raw*, at whatever position (leading, trailing, inside the scheme, host, port, a path or query segment or between
+  the '%' and the hex digits of an escape), is not a URI: parse() raises NotAUri and a consumer has to reject the
+  text. Appendix C only lets a reader strip whitespace that *surrounds* a URI embedded in running text, which is
+  the embedding document's business, not the URI parser's. The same characters *percent-encoded* ("%09", "%20",
+  "%00") are ordinary data octets of the component they occur in (2.1, 2.4) and survive decomposition.
+  NONURI_CHARS / raw_nonuri_positions() / nonuri_as_data() spell this out. What a consumer can do at most, short of
+  rejecting, is treat such a character as the data it would be when percent-encoded (nonuri_as_data), the way IRIs
+  treat raw non-ASCII characters; deleting it is not a reading of the text at all (two different texts would then
+  name one resource).
+* Square brackets. RFC 3986 3.2.2: "This is the only place where square bracket characters are allowed in the URI
+  syntax": a host is either "[" IPv6address / IPvFuture "]" (RFC 6874: optionally "%25" ZoneID before the "]") as a
+  whole, or it contains no bracket at all. An authority "[::1]junk:5684", "junk[::1]" or "[::1]]" is therefore no
+  authority (NotAUri "host"), and a reg-name whose *decoded* value contains brackets ("%5Bx%5D", "%5B::1%5D%2Fa")
+  is a perfectly valid reg-name whose brackets are data: is_ip_literal_text() / bracketed_non_literal().
+* Percent-encoded dot segments. '.' is an unreserved character, so "%2E" / "%2e" is equivalent to "." (RFC 3986
+  2.3: "URIs that differ in the replacement of an unreserved character with its corresponding percent-encoded
+  US-ASCII octet are equivalent"; 6.2.2.2 normalises by decoding them) and 6.2.2.3 then removes the dot segments.
+  "coap://h/a/%2e%2E/b", "coap://h/a/.%2e/b" and "coap://h/a/../b" hence are one resource, "coap://h/b". RFC 7252 6.4
+  read letter by letter (step 2 resolves the still-encoded text, step 8 decodes) would turn them into Uri-Path
+  values "." / "..", which RFC 7252 5.10.1 forbids, so that literal reading has no permitted outcome; decompose()
+  gives the normalised reading in .path, says so in .escaped_dots, and callers decide what else they tolerate.
 """
 
 from collections import namedtuple
@@ -93,6 +120,21 @@ def pct_encode(text, safe):
         else:
             out.extend("%%%02X" % b for b in c.encode("utf8"))
     return "".join(out)
+
+
+# C0 controls, SPACE, DEL: in none of the RFC 3986 character sets (see the module docstring)
+NONURI_CHARS = "".join(chr(i) for i in range(0x21)) + "\x7f"
+
+
+def raw_nonuri_positions(text):
+    """Positions of raw C0 control / SPACE / DEL characters: a text with any of them is not a URI."""
+    return [i for i, c in enumerate(text) if c in NONURI_CHARS]
+
+
+def nonuri_as_data(text):
+    """The text with every raw C0 control / SPACE / DEL replaced by its percent-encoding: what the text says if those
+    characters are taken to be data (the only reading short of rejection that loses nothing)."""
+    return "".join("%%%02X" % ord(c) if c in NONURI_CHARS else c for c in text)
 
 
 def _check_chars(s, allowed, component, iri=False):
@@ -240,6 +282,24 @@ def parse_host(text, iri=False):
     return Host("name", text, val, None)
 
 
+def is_ip_literal_text(value):
+    """Is this text, as it stands, an RFC 3986 / RFC 6874 IP-literal ("[" IPv6address [ "%25" ZoneID ] "]" or
+    "[" IPvFuture "]")?"""
+    if not (value.startswith("[") and value.endswith("]")):
+        return False
+    try:
+        return parse_host(value).kind in ("ipv6", "ipvfuture")
+    except (NotAUri, Reject):
+        return False
+
+
+def bracketed_non_literal(value):
+    """A host value (the decoded value of a reg-name, i.e. a Uri-Host option value) that begins with "[" and ends with
+    "]" without being an IP-literal: "[x]", "[::1]/a?b=]", "[::1]@[::2]", "[]", "[::1%eth0]" (a zone id needs "%25" in
+    URI text). Its brackets are data and can only be written percent-encoded in a URI."""
+    return value is not None and len(value) >= 2 and value.startswith("[") and value.endswith("]") and not is_ip_literal_text(value)
+
+
 # ---------------------------------------------------------------- RFC 3986 parser
 
 Parts = namedtuple("Parts", "scheme authority userinfo host port path query fragment")
@@ -372,21 +432,39 @@ def remove_dot_segments(path):
 
 # ---------------------------------------------------------------- RFC 7252 6.4
 
-Decomp = namedtuple("Decomp", "scheme host uri_host uri_host_alt port effport path query has_query path_literal escaped_dots ambiguous_host")
+Decomp = namedtuple("Decomp", "scheme host uri_host uri_host_alt port effport path query has_query path_literal escaped_dots ambiguous_host path_escaped_dots_kept")
 # host: Host (name value = Uri-Host); uri_host: option value or None for IP literals; uri_host_alt: the
 # other order of "lower-case" and "percent-decode" (equivalent host, differs only for escaped upper-case letters);
 # port: int or None as written; effport: port or the scheme default; path/query: tuples of text;
 # path_literal: the segments if dot segments were NOT removed (== path when there are none);
-# ambiguous_host: a reg-name with escapes that decodes to an IPv4address ("%31.2.3.4"): a name by the grammar, an address
-# after RFC 3986 6.2.2.2 normalisation; callers should not judge such text;
-# escaped_dots: a segment is written %2E / %2E%2E / .%2E ...: RFC 7252 contradicts itself there (6.4 step 2 removes only
-# literal dot segments, 5.10.1 forbids the resulting option values), callers should not judge such text
+# ambiguous_host: a reg-name with escapes that decodes to an IPv4address ("%31.2.3.4": a name by the grammar, an address
+# after RFC 3986 6.2.2.2 normalisation) or to a complete IP-literal ("%5B%3A%3A1%5D": a name by the grammar, but its
+# Uri-Host value "[::1]" is what RFC 7252 6.5 step 3 composes as the IP-literal [::1]); callers should not judge such text;
+# escaped_dots: a segment is written %2E / %2E%2E / .%2E ...: .path is the normalised reading (RFC 3986 2.3, 6.2.2.2,
+# 6.2.2.3: such a segment *is* a dot segment and is removed); .path_literal keeps them as "." / ".." values, which
+# is what RFC 7252 6.4 read letter by letter gives and 5.10.1 forbids (see the module docstring);
+# path_escaped_dots_kept: literal dot segments removed, escaped ones kept as "." / ".." values (None if not UTF-8)
 
 
 def _segments(path):
     if path in ("", "/"):
         return ()
     return tuple(pct_decode_text(s) for s in path.split("/")[1:])
+
+
+def decode_dot_escapes(path):
+    """RFC 3986 6.2.2.2 restricted to what matters for 6.2.2.3: every segment that consists of one or two dots of
+    which any are written "%2E" / "%2e" is replaced by the literal dot segment."""
+    segs = path.split("/")
+    for i, raw in enumerate(segs):
+        if "%" in raw and len(raw) <= 6:
+            try:
+                dec = pct_decode(raw)
+            except NotAUri:
+                continue
+            if dec in (b".", b".."):
+                segs[i] = dec.decode("ascii")
+    return "/".join(segs)
 
 
 def decompose(text, iri=False):
@@ -420,7 +498,7 @@ def decompose(text, iri=False):
     port = int(p.port) if p.port else None
     if port is not None and port > 65535:
         raise Reject("port-range")
-    path = _segments(remove_dot_segments(p.path))
+    path = _segments(remove_dot_segments(decode_dot_escapes(p.path)))
     try:
         path_literal = _segments(p.path)
     except Reject:
@@ -429,8 +507,12 @@ def decompose(text, iri=False):
     if p.query is not None:
         query = tuple(pct_decode_text(a) for a in p.query.split("&"))
     escaped_dots = any("%" in raw and pct_decode(raw) in (b".", b"..") for raw in p.path.split("/")[1:])
-    ambiguous_host = host.kind == "name" and "%" in p.host and parse_ipv4(uri_host) is not None
-    return Decomp(scheme, host, uri_host, uri_host_alt, port, port if port is not None else DEFAULT_PORT[scheme], path, query, p.query is not None, path_literal, escaped_dots, ambiguous_host)
+    try:
+        path_kept = _segments(remove_dot_segments(p.path))
+    except Reject:
+        path_kept = None
+    ambiguous_host = host.kind == "name" and "%" in p.host and (parse_ipv4(uri_host) is not None or is_ip_literal_text(uri_host))
+    return Decomp(scheme, host, uri_host, uri_host_alt, port, port if port is not None else DEFAULT_PORT[scheme], path, query, p.query is not None, path_literal, escaped_dots, ambiguous_host, path_kept)
 
 
 def classify(text):
@@ -545,6 +627,18 @@ def split_hostinfo(hostinfo, uri_form=True):
     return (h.kind, h.value, h.zone), p
 
 
+def hostinfo_wellformed(hostinfo):
+    """Is the string host[:port] with the host a name, an IPv4 address or one bracketed IPv6 literal (zone id written
+    either "%25zone" as in URIs or "%zone" as in socket addresses) and nothing else around it?"""
+    for uri_form in (True, False):
+        try:
+            split_hostinfo(hostinfo, uri_form=uri_form)
+            return True
+        except (NotAUri, Reject):
+            pass
+    return False
+
+
 def join_hostinfo(host, port):
     """host: a name, IPv4 text, or *unbracketed* IPv6 text (with optional zone)."""
     if ":" in host:
@@ -617,6 +711,34 @@ def selftest():
     assert decompose("coap://h").path == () and decompose("coap://h/").path == () and decompose("coap://h//").path == ("", "")
     assert decompose("coap://h/?").query == ("",) and decompose("coap://h/?").has_query and not decompose("coap://h/").has_query
     assert decompose("coap://h/a/%2E%2e/b").escaped_dots and not decompose("coap://h/a/../b%2E").escaped_dots
+    # RFC 3986 2.3 / 6.2.2.2 / 6.2.2.3: an escaped dot segment is a dot segment
+    for u in ["coap://h/a/%2e%2E/b", "coap://h/a/.%2e/b", "coap://h/a/%2E./b", "coap://h/a/../b", "coap://h/%2e/b", "coap://h/./a/%2e%2e/b/%2E"]:
+        d = decompose(u)
+        assert d.path == (("b",) if not u.endswith("%2E") else ("b", "")), (u, d.path)
+        assert resource_key(d)[:5] == resource_key(decompose("coap://h/b"))[:5]
+    assert decompose("coap://h/a/%2e%2E/b").path_literal == ("a", "..", "b") and decompose("coap://h/a/b/%2e%2E").path == ("a", "")
+    assert decompose("coap://h/%2e%2e%2e/%2e%2ea/%252e").path == ("...", "..a", "%2e") and not decompose("coap://h/%2e%2e%2e/%2e%2ea/%252e").escaped_dots
+    assert decode_dot_escapes("/%2E/x%2E/%2e%2E/%2") == "/./x%2E/../%2"
+    assert decompose("coap://h/x/../a/%2e%2E/b").path_escaped_dots_kept == ("a", "..", "b")
+    # raw controls / space are not URI characters anywhere; percent-encoded they are data
+    for bad in ["coap://h/a\tb", "coap://h/a b", " coap://h/", "\x00coap://h/", "coap://h/ ", "co\tap://h/", "coap://h\n/", "coap://h:56\n83/", "coap://h/%4\r1", "coap://h/?a\x0bb", "coap://h/\x7f", "coap://[::\t1]/"]:
+        assert classify(bad)[0] == "notauri", bad
+        assert raw_nonuri_positions(bad), bad
+    assert decompose("coap://h/a%09b%20?%0A%00").path == ("a\tb ",) and decompose("coap://h/a%09b%20?%0A%00").query == ("\n\x00",)
+    assert nonuri_as_data("coap://h/a\tb c\x7f") == "coap://h/a%09b%20c%7F" and decompose(nonuri_as_data("coap://h/a\tb c")).path == ("a\tb c",)
+    assert raw_nonuri_positions("coap://h/a%09") == [] and raw_nonuri_positions(" a\n") == [0, 2]
+    # RFC 3986 3.2.2: brackets delimit an IP-literal that is the whole host, and occur nowhere else
+    for bad in ["coap://[::1]junk/p", "coap://[::1]junk:5684/p", "coap://junk[::1]:5684/p", "coap://[::1]]/p", "coap://[[::1]/p", "coap://[fe80::1%25eth0]x:1/", "coap://a[::1]b/", "coap://[::1][::2]/", "coap://[::1]:1[/", "coap://h]/", "coap://[x]/", "coap://[]/", "coap://[::1%eth0]/"]:
+        assert classify(bad)[0] == "notauri" and classify(bad)[1] in ("host", "char:host", "char:port"), (bad, classify(bad))
+    d = decompose("coap://%5B%3A%3A1%5D%2Fa%3Fb=%5D/path")
+    assert d.uri_host == "[::1]/a?b=]" and d.path == ("path",) and not d.ambiguous_host and bracketed_non_literal(d.uri_host)
+    assert compose("coap", host_text("name", d.uri_host), None, d.path, ()) == "coap://%5B%3A%3A1%5D%2Fa%3Fb=%5D/path"
+    assert decompose("coap://%5Bx%5D/").uri_host == "[x]" and bracketed_non_literal("[x]") and bracketed_non_literal("[]") and bracketed_non_literal("[::1]@[::2]") and bracketed_non_literal("[fe80::1%eth0]")
+    assert not bracketed_non_literal("[::1]") and not bracketed_non_literal("[fe80::1%25eth0]") and not bracketed_non_literal("[v1.x]") and not bracketed_non_literal("[x") and not bracketed_non_literal("x]") and not bracketed_non_literal("[")
+    assert decompose("coap://%5B%3A%3A1%5D/").ambiguous_host and decompose("coap://%5Bfe80%3A%3A1%2525eth0%5D/").ambiguous_host and not decompose("coap://%5Bfe80%3A%3A1%25eth0%5D/").ambiguous_host
+    assert hostinfo_wellformed("[::1]:5684") and hostinfo_wellformed("[fe80::1%eth0]:1") and hostinfo_wellformed("[fe80::1%25eth0]") and hostinfo_wellformed("h:1") and hostinfo_wellformed("1.2.3.4")
+    for bad in ["[::1]junk:5684", "junk[::1]:5684", "[::1]]", "[fe80::1%eth0]x:1", "[[::1]]", "[::1]:1:2", "a@[::1]", "[::1", "::1]"]:
+        assert not hostinfo_wellformed(bad), bad
     assert classify("coap://h:1 2/")[0] == "notauri" and classify("coap://h:1a/") == ("reject", "port-non-numeric")
     assert decompose("coap://%31.2.3.4/").ambiguous_host and not decompose("coap://1.2.3.4/").ambiguous_host and not decompose("coap://h%31/").ambiguous_host
     assert decompose("coap://h/a%FF/../b").path == ("b",) and decompose("coap://h/a%FF/../b").path_literal is None
